@@ -578,7 +578,7 @@ pub fn run(c: &mut Ctx) {
                     if matches!(item, Item::Error) {
                         errors += 1;
                     }
-                    if n > 7 * fmt.len() + 16 {
+                    if 2 * n > 13 * fmt.len() + 32 {
                         break;
                     }
                 }
@@ -589,8 +589,8 @@ pub fn run(c: &mut Ctx) {
             match r {
                 Ok((n, _)) if n > cap => {
                     if composite {
-                        // the literal bound of the property statement; iteration still ends (the drain
-                        // below re-checks with the linear bound 7 items per byte)
+                        // the literal bound of the property statement; iteration still ends (the check
+                        // below enforces the proved linear bound: 2 * items <= 13 * bytes)
                         c.fail("composite specifiers yield more than one item per input byte", &format!("{:?} lenient={lenient}", fmt))
                     } else {
                         c.fail("StrftimeItems yields more than one item per input byte plus a constant", &format!("{:?} lenient={lenient}", fmt))
@@ -600,8 +600,10 @@ pub fn run(c: &mut Ctx) {
                 Err(()) => c.fail("panic while iterating StrftimeItems", &format!("{:?} lenient={lenient}", fmt)),
             }
             if let Ok((n, _)) = r {
-                if n > 7 * fmt.len() + 16 {
-                    c.fail("StrftimeItems does not terminate within 7 items per input byte plus a constant", &format!("{:?} lenient={lenient}", fmt));
+                // Props/C15.lean `strftime_terminates`: twice the number of items is at most 13 times the
+                // byte length (attained by "%c": 13 items from 2 bytes), strict and lenient
+                if 2 * n > 13 * fmt.len() {
+                    c.fail("StrftimeItems yields more than 13 items per 2 input bytes (proved bound 2*items <= 13*len)", &format!("{:?} lenient={lenient} items={n}", fmt));
                 }
             }
         }
